@@ -319,6 +319,11 @@ func (d *decoderState) PeekKind() Kind {
 	if d.peekPos > 0 {
 		return Kind(d.buf[d.peekPos]).normalize()
 	}
+	if _, ok := d.peekErr.(*ioError); ok {
+		// A read error stays cached until the next read call reports it;
+		// peeking again must not drop it.
+		return invalidKind
+	}
 
 	var err error
 	d.invalidatePreviousRead()
